@@ -583,9 +583,26 @@ def _graphemes(e, c, a):
         ch, w = decode_char(e, bs, i)
         i += w; offs.append(i)
 
+    plan = getattr(e, 'grapheme_plan', None)
+
     def nextfn(e_, it):
         if it.k >= len(offs) - 1:
             return none()
+        if plan is not None:
+            # the harness fixed one segmentation of this text beforehand (any segmentation consistent with the UAX #29 facts it states);
+            # the oracle answers according to it, wherever it is asked
+            pos = r.lo + offs[it.k]
+            end = plan.get(pos)
+            if end is None:
+                later = sorted(x for x in plan.values() if x > pos)
+                end = later[0] if later else r.lo + offs[-1]
+            k2 = it.k
+            while r.lo + offs[k2] < end:
+                k2 += 1
+            lo = offs[it.k]; hi = offs[k2]
+            it.k = k2
+            e_.stub_hit('grapheme oracle consulted')
+            return some(StrRef(r.s, r.lo + lo, r.lo + hi))
         remaining = len(offs) - 1 - it.k
         take = 1 + e_.choose(remaining)        # every cluster length is possible
         lo = offs[it.k]; hi = offs[it.k + take]
